@@ -730,7 +730,7 @@ impl Property for C19 {
         case_strategy(tier)
     }
     fn budget(&self, tier: Tier) -> Budget {
-        Budget::new(tier.pick(800, 60_000), tier.pick(8, 16)).min_nontrivial(tier.pick(200, 15_000)).case_timeout(180)
+        Budget::new(tier.pick(800, 20_000), tier.pick(8, 16)).min_nontrivial(tier.pick(200, 5_000)).case_timeout(180)
     }
     fn rule(&self) -> String {
         "case = plan shape (9 direct physical shapes, 16 SQL shapes) x scripted inputs (1-3 partitions, Rows/Pending/Error steps) x runtime flavour x knobs; \
